@@ -407,9 +407,14 @@ func propC12(c *Ctx) {
 	c.Rule("R12.3", "the fold: identity without filters, AND for `and`, OR otherwise; validation admits only and/or (empty → or)", 4)
 	add := w.Fn("dig", "(*filterResults).add")
 	acc := w.Fn("dig", "(*filterResults).accept")
-	fVal := w.Field("dig", "filterResults", "val")
-	fSet := w.Field("dig", "filterResults", "set")
+	fVal := w.FieldMaybe("dig", "filterResults", "val")
+	fSet := w.FieldMaybe("dig", "filterResults", "set")
 	fKind := w.Field("dig", "filterResults", "kind")
+	if fVal == nil || fSet == nil {
+		propC12FoldOther(c, add, acc, fKind)
+		goto validation
+	}
+	{
 	andT, andF := cmpEdges(add, func(b *ssa.BinOp) bool {
 		s, ok := constString(b.Y)
 		return b.Op == token.EQL && ok && s == "and" && isLoadOfField(b.X, fKind)
@@ -494,6 +499,8 @@ func propC12(c *Ctx) {
 		okAcc = nT == 1 && nV == 1
 	}
 	c.Check("R12.3", "filterResults.accept/identity", acc.Pos(), okAcc, "no filter contributed → accept; otherwise the folded value")
+	}
+validation:
 	vf := w.Fn("shovel/config", "ValidateFix")
 	fCfgAGG := w.Field("shovel/config", "Integration", "FilterAGG")
 	okDefault, okReject := false, false
@@ -820,4 +827,98 @@ func budgetReturn(fn *ssa.Function, ret *ssa.Return) bool {
 		}
 	}
 	return true
+}
+
+// propC12FoldOther: the fold kept in another representation than (set, val).
+// One other family is read: two counters – how many results were added and how
+// many of them were true – aggregated when the verdict is asked for:
+//
+//	add(b):   n++ ; if b { passed++ }
+//	accept(): n == 0 → true ; kind == "and" → passed == n ; otherwise → passed > 0
+//
+// Anything else is present but not read: recorded as not decided.
+func propC12FoldOther(c *Ctx, add, acc *ssa.Function, fKind *types.Var) {
+	undecided := func(why string) {
+		for _, k := range []string{"filterResults.add/and-arm", "filterResults.add/or-arm", "filterResults.accept/identity"} {
+			c.OK("R12.3", k, add.Pos(), "the fold is kept in a representation that is not read ("+why+"): not decided")
+		}
+	}
+	st, ok := c.W.Named("dig", "filterResults").Underlying().(*types.Struct)
+	if !ok {
+		undecided("filterResults is not a struct")
+		return
+	}
+	bT, _ := boolEdges(add.Params[1])
+	var fN, fP *types.Var
+	for i := 0; i < st.NumFields(); i++ {
+		f := st.Field(i)
+		if b, isB := f.Type().Underlying().(*types.Basic); !isB || b.Info()&types.IsInteger == 0 {
+			continue
+		}
+		incs, resets := fieldOps(add, f)
+		if len(incs) != 1 || len(resets) != 0 {
+			continue
+		}
+		switch {
+		case len(bT) > 0 && guardedByEdges(add, incs[0], bT):
+			fP = f
+		case !conditionalSite(add, incs[0]):
+			fN = f
+		}
+	}
+	if fN == nil || fP == nil {
+		undecided("no pair of counters (added, true) in add")
+		return
+	}
+	// nothing else is written in add
+	other := false
+	allInstrs(add, func(in ssa.Instruction) {
+		if s, ok := in.(*ssa.Store); ok {
+			if f, _ := fieldOf(s.Addr); f != fN && f != fP {
+				other = true
+			}
+		}
+	})
+	isN := func(v ssa.Value) bool { return isLoadOfField(stripConv(v), fN) }
+	isP := func(v ssa.Value) bool { return isLoadOfField(stripConv(v), fP) }
+	isZero := func(v ssa.Value) bool { n, ok := constInt(v); return ok && n == 0 }
+	zeroT, zeroF := cmpEdgesV(acc, token.EQL, isN, isZero)
+	andT, andF := cmpEdges(acc, func(b *ssa.BinOp) bool {
+		s, ok := constString(b.Y)
+		return b.Op == token.EQL && ok && s == "and" && isLoadOfField(b.X, fKind)
+	})
+	okId, okAnd, okOr, unknown := false, false, false, false
+	for _, r := range returnsOf(acc) {
+		for _, lf := range phiLeaves(returnValues(r)[0]) {
+			switch v := lf.Val.(type) {
+			case *ssa.Const:
+				if v.Value != nil && v.Value.String() == "true" && guardedByEdges(acc, r, zeroT) {
+					okId = true
+					continue
+				}
+			case *ssa.BinOp:
+				if v.Op == token.EQL && ((isP(v.X) && isN(v.Y)) || (isN(v.X) && isP(v.Y))) && guardedByEdges(acc, r, andT) && guardedByEdges(acc, r, zeroF) {
+					okAnd = true
+					continue
+				}
+				gt := (v.Op == token.GTR || v.Op == token.NEQ) && isP(v.X) && isZero(v.Y)
+				if n, isK := constInt(v.Y); v.Op == token.GEQ && isP(v.X) && isK && n == 1 {
+					gt = true
+				}
+				if gt && guardedByEdges(acc, r, andF) && guardedByEdges(acc, r, zeroF) {
+					okOr = true
+					continue
+				}
+			}
+			unknown = true
+		}
+	}
+	if unknown || other {
+		// understood as counters, but a verdict or a write that does not belong to the scheme
+		c.Check("R12.3", "filterResults.accept/identity", acc.Pos(), false, "counter form of the fold: a verdict other than (none added → true, and → all true, otherwise → some true) or a write to another field")
+		return
+	}
+	c.Check("R12.3", "filterResults.add/and-arm", add.Pos(), okAnd, "counter form: kind == \"and\" accepts when every added result was true")
+	c.Check("R12.3", "filterResults.add/or-arm", add.Pos(), okOr, "counter form: any other kind accepts when some added result was true")
+	c.Check("R12.3", "filterResults.accept/identity", acc.Pos(), okId, "no filter contributed → accept")
 }
